@@ -33,11 +33,12 @@ VARIABLES mstack,   \* frames [k, s, node, fn, saved, kids]
           nn,       \* nodes used
           hist,     \* the tree so far (sequence of abstract actions)
           mclosed,  \* crossings completed so far
+          mts,      \* per-sandbox transition state label
           cst,      \* Contract state
           okv,      \* ghost: the last step's events were all allowed by the Contract
           done
 
-vars == <<mstack, tls, unw, aborted, nn, hist, mclosed, cst, okv, done>>
+vars == <<mstack, tls, unw, aborted, nn, hist, mclosed, mts, cst, okv, done>>
 
 RECURSIVE FoldOK(_, _), FoldSt(_, _)
 FoldOK(st, es) == IF es = <<>> THEN TRUE
@@ -62,6 +63,7 @@ MInit ==
   /\ nn = 0
   /\ hist = <<>>
   /\ mclosed = NoClosed
+  /\ mts = [s \in SandboxSet |-> s]
   /\ cst = InitCst
   /\ okv = TRUE
   /\ done = FALSE
@@ -70,7 +72,8 @@ MTop == mstack[Len(mstack)]
 MPop == SubSeq(mstack, 1, Len(mstack) - 1)
 Bump == [mstack EXCEPT ![Len(mstack)].kids = @ + 1]
 
-HookEv(dir, kind, who, s) == [e |-> "hook", dir |-> dir, kind |-> kind, who |-> who, state |-> s]
+HookEv(dir, kind, who, s) == [e |-> "hook", dir |-> dir, kind |-> kind, who |-> who, state |-> mts[s]]
+Toggle(s) == IF mts[s] = s THEN s \o "*" ELSE s
 
 CanGrow == ~done /\ ~unw /\ nn < MaxNodes /\ Len(mstack) < MaxDepth /\
            (IF Len(mstack) > 0 THEN MTop.kids < MaxWidth ELSE TRUE)
@@ -112,13 +115,20 @@ GuestCall(f) ==
      IF f \notin FuncSet
        THEN \* stale / empty entry point: the call traps, nothing runs
             /\ mstack' = Bump
-            /\ UNCHANGED <<tls, unw, aborted, done, mclosed>>
+            /\ UNCHANGED <<tls, unw, aborted, done, mclosed, mts>>
             /\ Emit(<<call, [e |-> "guest_call_ret", node |-> node, out |-> "trap", valok |-> TRUE]>>)
        ELSE \* the interceptor resolves (tls.sandbox, key of the slot)
             /\ mstack' = Append(Bump, [k |-> "cb", s |-> tls, node |-> node, fn |-> f, saved |-> tls, kids |-> 0])
             /\ UNCHANGED <<tls, unw, aborted, done, mclosed>>
-            /\ Emit(<<call, HookEv("out", "CALLBACK", f, tls),
-                      [e |-> "cb_run", node |-> node, fn |-> f, sbref |-> tls]>>)
+            /\ IF node % 2 = 1
+                 THEN \* this callback body changes the transition state of its sandbox
+                      /\ mts' = [mts EXCEPT ![tls] = Toggle(tls)]
+                      /\ Emit(<<call, HookEv("out", "CALLBACK", f, tls),
+                                [e |-> "cb_run", node |-> node, fn |-> f, sbref |-> tls],
+                                [e |-> "setstate", s |-> tls, state |-> Toggle(tls)]>>)
+                 ELSE /\ mts' = mts
+                      /\ Emit(<<call, HookEv("out", "CALLBACK", f, tls),
+                                [e |-> "cb_run", node |-> node, fn |-> f, sbref |-> tls]>>)
 
 CbReturn(how) ==
   /\ ~done /\ ~unw
@@ -200,13 +210,13 @@ TopAbortDone ==
 CallTargets == FuncSet \cup (IF StaleCalls THEN {"stale"} ELSE {})
 
 MNext ==
-  \/ \E s \in SandboxSet, p \in BOOLEAN : InvokeEnter(s, p)
+  \/ (\E s \in SandboxSet, p \in BOOLEAN : InvokeEnter(s, p)) /\ UNCHANGED mts
   \/ \E f \in CallTargets : GuestCall(f)
-  \/ \E h \in {"ok", "throw", "poison"} : CbReturn(h)
-  \/ GuestThrow
-  \/ GuestReturn
-  \/ Unwind
-  \/ TopAbortDone
+  \/ (\E h \in {"ok", "throw", "poison"} : CbReturn(h)) /\ UNCHANGED mts
+  \/ GuestThrow /\ UNCHANGED mts
+  \/ GuestReturn /\ UNCHANGED mts
+  \/ Unwind /\ UNCHANGED mts
+  \/ TopAbortDone /\ UNCHANGED mts
 
 MSpec == MInit /\ [][MNext]_vars
 
